@@ -366,7 +366,7 @@ func Main() {
 		"level":       "model_checking",
 		"wall_s":      time.Since(t0).Seconds(),
 		"violations":  nviol,
-		"assumptions": p.Assumptions,
+		"assumptions": append([]string{}, p.Assumptions...),
 		"coverage": map[string]any{
 			"states":                        states,
 			"transitions":                   total.Transitions,
